@@ -149,3 +149,17 @@ func LinearAtom(op token.Token, x, y Lin) string {
 	}
 	return sb.String() + " " + op.String() + " 0"
 }
+
+func (a Lin) String() string {
+	var ks []string
+	for k := range a.T {
+		ks = append(ks, k)
+	}
+	sort.Strings(ks)
+	var sb strings.Builder
+	for _, k := range ks {
+		fmt.Fprintf(&sb, "%+d·%s ", a.T[k], k)
+	}
+	fmt.Fprintf(&sb, "%+d", a.K)
+	return sb.String()
+}
